@@ -26,6 +26,7 @@ def run(rep, tier):
     C04.r_guards(rep, f, include_rk4=True)
     limits.r_nmax_taint(rep, f)
     landing.r_land_stretch(rep, f)
+    landing.r_land_stretch_sem(rep, f)
     hc = H.HandlerCtx(f)
     if hc.body is not None:
         H.r_first_sign_handler(rep, hc)
